@@ -21,6 +21,7 @@ type Handler6 struct {
 	LANRouters map[netip.Addr]*Router
 	session    *packet.Session
 	huntList   packet.AddrList
+	loops      map[string]bool // macs with a spoof loop running (a stopped loop only notices at its next wake up)
 	closed     bool
 	closeChan  chan bool
 	sync.Mutex
@@ -59,7 +60,7 @@ func (h *Handler6) PrintTable() {
 
 // New creates an ICMP6 handler
 func New6(session *packet.Session) (*Handler6, error) {
-	h := &Handler6{LANRouters: make(map[netip.Addr]*Router), closeChan: make(chan bool)}
+	h := &Handler6{LANRouters: make(map[netip.Addr]*Router), loops: make(map[string]bool), closeChan: make(chan bool)}
 	h.session = session
 	return h, nil
 }
